@@ -384,9 +384,11 @@ def main(argv):
         if key in seen_keys:
             continue
         seen_keys.add(key)
-        if key in known:
-            print('KNOWN-FINDING: property=%s %s [%s]' % (pid, known[key].get('what', ''), key))
-            printed += 1
+        base_key = key.split('#build=')[0]      # the same construct seen in an alternative build of the same source
+        if base_key in known:
+            if base_key == key or base_key not in seen_keys:
+                print('KNOWN-FINDING: property=%s %s [%s]' % (pid, known[base_key].get('what', ''), key))
+                printed += 1
             continue
         nviol += 1
         rp = write_replay(pid, key, v)
